@@ -15,6 +15,13 @@ Subst(e, sv) == CASE e.k = "t" -> e
                   [] e.k \in {"neg", "abs", "sqrt", "not"} -> [k |-> e.k, x |-> Subst(e.x, sv)]
                   [] OTHER -> [k |-> e.k, l |-> Subst(e.l, sv), r |-> Subst(e.r, sv)]
 
+JudgeExprC(ev) ==
+    LET x == ev.in
+        e == Subst(x.tree, x.s)
+    IN IF ~RingOnly(e) THEN PrintT(<<"DOMAIN", l, ev.case>>)
+       ELSE LET exp == AssignC(x.aop, x.pre, EvalC(e, x.env, x.N))
+            IN \A o \in 1..Len(ev.outs) : IF ev.outs[o].out.vals = exp THEN TRUE ELSE Reject(l, ev.case, ev.outs[o].cfg)
+
 JudgeExpr(ev) ==
     LET x == ev.in
         e == Subst(x.tree, x.s)
@@ -33,7 +40,7 @@ JudgeTable(ev) == \A o \in 1..Len(ev.outs) :
 Init == l = 1
 Next == /\ l <= Len(Tr)
         /\ LET ev == Tr[l] IN
-             CASE ev.e = "Expr" -> JudgeExpr(ev)
+             CASE ev.e = "Expr" -> IF IsCx(ev.in.T) THEN JudgeExprC(ev) ELSE JudgeExpr(ev)
                [] ev.e = "ExprTable" -> JudgeTable(ev)
                [] ev.e \in {"Fault", "CompileFail"} -> \A o \in 1..Len(ev.outs) : Reject(l, ev.case, ev.outs[o].cfg)
         /\ l' = l + 1
